@@ -227,7 +227,9 @@ def run(res):
     for i in range(n):
         rng = vlib.rng_for(res.seed, PID, i)
         R = rng.choice([2, 2, 3])
-        N = rng.choice([3, 4, 5]) if R == 2 else rng.choice([3, 4, 5])
+        # R=3 on exactly 3 members (the cluster is below ReplicaCount after the first loss) is the subject of the directed
+        # two-failure scenarios, which can tell D40 from other losses
+        N = rng.choice([3, 4, 5]) if R == 2 else rng.choice([4, 5])
         scs.append(gen(rng, i, N, R, rng.random() < 0.5))
     orders = [(a, b) for a in range(3) for b in range(3) if a != b]
     for j, (a, b) in enumerate(orders if res.tier != "quick" else orders[::2]):
